@@ -4,6 +4,8 @@ import (
 	"context"
 	"errors"
 	"fmt"
+	"math"
+	"reflect"
 	"sort"
 	"time"
 
@@ -102,6 +104,46 @@ func c15Updates(us []c15Upd) osm.Updates {
 
 var c15Stamp = time.Date(2014, 3, 1, 12, 0, 0, 0, time.UTC)
 
+// c15FillRest gives every settable field of a child struct that the model does not control
+// (whatever the struct has today or gets later: today Member.Nodes) a non-zero value derived
+// from the child's position, recursively. Applying updates must leave all of them alone.
+func c15FillRest(v reflect.Value, modelled map[string]bool, salt int) {
+	switch v.Kind() {
+	case reflect.Struct:
+		for i := 0; i < v.NumField(); i++ {
+			f := v.Type().Field(i)
+			if f.PkgPath != "" || modelled[f.Name] || !v.Field(i).CanSet() {
+				continue
+			}
+			c15FillRest(v.Field(i), nil, salt+i+1)
+		}
+	case reflect.Slice:
+		s := reflect.MakeSlice(v.Type(), 2, 2)
+		c15FillRest(s.Index(0), nil, salt+1)
+		c15FillRest(s.Index(1), nil, salt+2)
+		v.Set(s)
+	case reflect.Ptr:
+		p := reflect.New(v.Type().Elem())
+		c15FillRest(p.Elem(), nil, salt+1)
+		v.Set(p)
+	case reflect.String:
+		v.SetString(fmt.Sprintf("keep-%d", salt))
+	case reflect.Bool:
+		v.SetBool(true)
+	case reflect.Int, reflect.Int8, reflect.Int16, reflect.Int32, reflect.Int64:
+		v.SetInt(int64(1 + salt%100))
+	case reflect.Uint, reflect.Uint8, reflect.Uint16, reflect.Uint32, reflect.Uint64:
+		v.SetUint(uint64(1 + salt%100))
+	case reflect.Float32, reflect.Float64:
+		v.SetFloat(float64(salt) + 0.5)
+	}
+}
+
+var (
+	c15NodeModelled   = map[string]bool{"ID": true, "Version": true, "ChangesetID": true, "Lat": true, "Lon": true}
+	c15MemberModelled = map[string]bool{"Type": true, "Ref": true, "Role": true, "Version": true, "ChangesetID": true, "Lat": true, "Lon": true, "Orientation": true}
+)
+
 func (in c15Input) way() *osm.Way {
 	ct := c15Stamp.Add(time.Minute)
 	w := &osm.Way{ID: 77, User: "mapper", UserID: 5, Visible: true, Version: 3, ChangesetID: 9, Timestamp: c15Stamp,
@@ -110,10 +152,38 @@ func (in c15Input) way() *osm.Way {
 	for _, c := range in.Children {
 		w.Nodes = append(w.Nodes, osm.WayNode{ID: osm.NodeID(c.Ref), Version: c.Version, ChangesetID: osm.ChangesetID(c.CS), Lat: c.Lat, Lon: c.Lon})
 	}
+	if c15HasRest(reflect.TypeOf(osm.WayNode{}), c15NodeModelled) {
+		for i := range w.Nodes {
+			c15FillRest(reflect.ValueOf(&w.Nodes[i]).Elem(), c15NodeModelled, 10*i)
+		}
+	}
 	return w
 }
 
-func (in c15Input) relation() *osm.Relation {
+var c15RestCache = map[reflect.Type]bool{}
+
+// c15HasRest: the child struct has exported fields the model does not control.
+func c15HasRest(t reflect.Type, modelled map[string]bool) bool {
+	if v, ok := c15RestCache[t]; ok {
+		return v
+	}
+	has := false
+	for i := 0; i < t.NumField(); i++ {
+		if f := t.Field(i); f.PkgPath == "" && !modelled[f.Name] {
+			has = true
+		}
+	}
+	c15RestCache[t] = has
+	return has
+}
+
+// relationPlain builds the relation without the reflection fill (used where only the
+// modelled fields are compared).
+func (in c15Input) relationPlain() *osm.Relation { return in.relationWith(false) }
+
+func (in c15Input) relation() *osm.Relation { return in.relationWith(true) }
+
+func (in c15Input) relationWith(fill bool) *osm.Relation {
 	ct := c15Stamp.Add(time.Minute)
 	r := &osm.Relation{ID: 88, User: "mapper", UserID: 5, Visible: true, Version: 4, ChangesetID: 9, Timestamp: c15Stamp,
 		Tags: osm.Tags{{Key: "type", Value: "multipolygon"}}, Committed: &ct,
@@ -122,11 +192,24 @@ func (in c15Input) relation() *osm.Relation {
 		r.Members = append(r.Members, osm.Member{Type: osm.Type(c.Type), Ref: c.Ref, Role: c.Role, Version: c.Version,
 			ChangesetID: osm.ChangesetID(c.CS), Orientation: orb.Orientation(c.Orient), Lat: c.Lat, Lon: c.Lon})
 	}
+	if fill && c15HasRest(reflect.TypeOf(osm.Member{}), c15MemberModelled) {
+		for i := range r.Members {
+			c15FillRest(reflect.ValueOf(&r.Members[i]).Elem(), c15MemberModelled, 10*i)
+		}
+	}
 	return r
 }
 
 type c15Elem interface {
 	ApplyUpdatesUpTo(time.Time) error
+}
+
+// buildPlain is build without the fill of unmodelled child fields of relation members.
+func (in c15Input) buildPlain() c15Elem {
+	if in.Rel {
+		return in.relationPlain()
+	}
+	return in.way()
 }
 
 func (in c15Input) build() c15Elem {
@@ -326,8 +409,19 @@ func c15CheckState(got c15Elem, want c15Input, prefix string, deep bool) (string
 	if !deep {
 		return "", ""
 	}
+	// every field of every child that the statement does not list (the builder fills them all)
+	wb := want.build()
+	kids := func(e c15Elem) any {
+		if r, ok := e.(*osm.Relation); ok {
+			return r.Members
+		}
+		return e.(*osm.Way).Nodes
+	}
+	if gd, wd := eq.Dump(kids(got)), eq.Dump(kids(wb)); gd != wd {
+		return prefix + "/child-other-field", "a field of a child other than version, changeset, location and orientation changed: " + eq.Diff(wd, gd)
+	}
 	// every other field of the element (canonical dump: times as instants, nil == empty)
-	if gd, wd := eq.Dump(got), eq.Dump(want.build()); gd != wd {
+	if gd, wd := eq.Dump(got), eq.Dump(wb); gd != wd {
 		return prefix + "/other-fields", "a field other than children and updates changed: " + eq.Diff(wd, gd)
 	}
 	return "", ""
@@ -542,7 +636,7 @@ func c15EvalPair(in c15Input, t1, t2 c15T, count c15Counter) (fails []c15Fail) {
 	if ordered && len(oor2) == 0 && !(c15SameChildren(r2.Children, direct.Children) && c15SameUpdates(r2.Updates, direct.Updates)) {
 		panic("harness: reference model is not composable on a child-ordered list: " + fw.JSON(in))
 	}
-	o := in.build()
+	o := in.buildPlain()
 	e := c15StructCopy(o)
 	count("compose_pairs")
 	if err, pan := c15Call(e, t1.time(c15QueryZone(t1))); err != nil || pan != nil {
@@ -588,7 +682,7 @@ func c15EvalPair(in c15Input, t1, t2 c15T, count c15Counter) (fails []c15Fail) {
 	cs, us := c15Extract(d)
 	if ecs, eus := c15Extract(e); !c15SameChildren(cs, ecs) || !c15SameUpdates(us, eus) {
 		key := k + "/compose/differs-from-direct"
-		f := in.build()
+		f := in.buildPlain()
 		if err, pan := c15Call(f, t2.time(c15QueryZone(t2))); err == nil && pan == nil {
 			if fcs, fus := c15Extract(f); c15SameChildren(fcs, ecs) && c15SameUpdates(fus, eus) {
 				// right on an element with a list of its own: the earlier application on
@@ -909,7 +1003,7 @@ func c15Gen(r *gen.R) (children []c15Child, ups []c15Upd, ann string) {
 			Lat: r.Coord(90), Lon: r.Coord(180), Reverse: r.Chance(0.3)}
 		switch {
 		case n == 0 || i < nOOR:
-			u.Index = n + r.Intn(4)
+			u.Index = c15BeyondIndex(r, n)
 		case focus >= 0 && r.Chance(0.6):
 			u.Index = focus
 		default:
@@ -925,6 +1019,66 @@ func c15Gen(r *gen.R) (children []c15Child, ups []c15Upd, ann string) {
 	}
 	r.Shuffle(len(ups), func(i, j int) { ups[i], ups[j] = ups[j], ups[i] })
 	return
+}
+
+// c15BeyondIndex draws an index beyond a child list of length n, of every magnitude: just
+// beyond, around 2^16 and 2^31, 2^32 and 2^40 plus a small (otherwise valid) index, the
+// largest int.
+func c15BeyondIndex(r *gen.R, n int) int {
+	k := 0 // an index that would be valid on its own
+	if n > 0 {
+		k = r.Intn(n)
+	}
+	var v int64
+	switch r.Intn(10) {
+	case 0, 1:
+		v = int64(n)
+	case 2:
+		v = int64(n + r.Range(1, 3))
+	case 3:
+		v = 1<<16 + int64(r.Pick(-1, 0, 1, k))
+	case 4:
+		v = 1<<31 + int64(r.Pick(-1, 0, 1, k))
+	case 5, 6:
+		v = 1<<32 + int64(k)
+	case 7:
+		v = 1<<32 + int64(n)
+	case 8:
+		v = 1<<40 + int64(k)
+	default:
+		v = math.MaxInt64 - int64(r.Pick(0, 1))
+	}
+	if v < int64(n) || int64(int(v)) != v { // 32-bit int: stay just beyond
+		v = int64(n)
+	}
+	return int(v)
+}
+
+func c15IndexClass(idx, n int) string {
+	d := int64(idx)
+	switch {
+	case d < 0:
+		return "negative"
+	case d < int64(n):
+		return "valid"
+	case d <= int64(n)+3:
+		return "just-beyond"
+	case d < 1<<31-1:
+		return "lt-2^31"
+	case d < 1<<32:
+		return "2^31..2^32"
+	case d < 1<<33:
+		if d-1<<32 < int64(n) {
+			return "2^32+valid"
+		}
+		return "2^32+"
+	case d < math.MaxInt64-1:
+		if d >= 1<<40 && d-1<<40 < int64(n) {
+			return "2^40+valid"
+		}
+		return "huge"
+	}
+	return "maxint"
 }
 
 var c15Orders = []string{"index", "time", "shuffled", "interleaved"}
@@ -1141,6 +1295,14 @@ func (x *c15Run) check(in c15Input, order, ann string) {
 	}
 	static := fmt.Sprintf("%s/%s/n%s/m%s/ts%s/%s/%s/ord%v%s", in.kind(), order, c15Class(len(in.Children), 0, 1, 4, 12),
 		c15Class(len(in.Updates), 0, 1, 5, 15, 30), c15Class(len(distinct), 0, 1, 3, 8, 30), oorClass, ann, c15ChildOrdered(in.Updates), rep)
+	for _, u := range in.Updates {
+		if u.Index >= len(in.Children) {
+			if cl := "oorclass/" + c15IndexClass(u.Index, len(in.Children)); !x.sigs[cl] {
+				x.sigs[cl] = true
+				x.res.Put("out_of_range_index_classes", cl[len("oorclass/"):])
+			}
+		}
+	}
 	x.res.SetMax("children", int64(len(in.Children)))
 	x.res.SetMax("updates", int64(len(in.Updates)))
 	x.res.SetMax("distinct_timestamps", int64(len(distinct)))
@@ -1250,6 +1412,10 @@ func c15Exec(c fw.Case) *fw.Result {
 		// index n is the out-of-range one. Seed independent.
 		n, maxm := int(c.Int("n")), int(c.Int("maxm"))
 		shard, shards := int(c.Int("shard")), int(c.Int("shards")) // split on the first update
+		oorIdx := n                                                // the index used by the out-of-range option
+		if c.Int("oor") != 0 {
+			oorIdx = int(c.Int("oor"))
+		}
 		t0 := c15T{Sec: 1400000000}
 		stamps := []c15T{t0, t0.add(10_000_000_000), t0.add(20_000_000_000)}
 		type opt struct {
@@ -1292,7 +1458,11 @@ func c15Exec(c fw.Case) *fw.Result {
 						if p == 0 && oi%shards != shard {
 							continue
 						}
-						u := c15Upd{Index: o.idx, Version: 10 + p, At: stamps[o.ts], CS: int64(900 + p), Lat: 40 + float64(p), Lon: -70 - float64(p)}
+						idx := o.idx
+						if idx == n {
+							idx = oorIdx
+						}
+						u := c15Upd{Index: idx, Version: 10 + p, At: stamps[o.ts], CS: int64(900 + p), Lat: 40 + float64(p), Lon: -70 - float64(p)}
 						rec(append(prefix, u))
 						if rel && len(prefix) < 2 && o.idx < n {
 							u.Reverse = true
@@ -1341,6 +1511,21 @@ func c15Exec(c fw.Case) *fw.Result {
 		for b := 0; b < int(c.Int("batch")); b++ {
 			children, bag, ann := c15Gen(r)
 			res.Add("base_inputs", 1)
+			if len(children) > 0 && b%10 == 0 {
+				// negative index: outside the statement. Executed, outcome recorded, nothing asserted.
+				for _, rel := range []bool{false, true} {
+					in := c15Input{Rel: rel, Children: children, Updates: []c15Upd{{Index: -1 - r.Intn(3), Version: 2, At: c15T{Sec: 1400000000}}}}
+					err, pan := c15Call(in.build(), c15T{Sec: 1500000000}.time(0))
+					switch {
+					case pan != nil:
+						res.Add("negative_index_probe_panicked", 1)
+					case err != nil:
+						res.Add("negative_index_probe_error", 1)
+					default:
+						res.Add("negative_index_probe_nil", 1)
+					}
+				}
+			}
 			for _, order := range c15Orders {
 				stored := c15Store(r, bag, order)
 				for _, rel := range []bool{false, true} {
@@ -1372,7 +1557,9 @@ func init() {
 			"Per stored input every distinct instant (zero time, just below, at, between, just above, far future) is evaluated against the reference transition; pairs t1<=t2 for composability (all pairs when few). " +
 			"A signature is (kind, stored order, size classes of children/updates/distinct timestamps, out-of-range class, annotation class, child-ordered flag, position of t, late-update-stored-before-in-time-one flag); distinct_nontrivial counts distinct signatures.",
 		Assumptions: []string{
-			"negative update indices are outside the statement and never generated",
+			"negative update indices are outside the statement: never part of an asserted input; a few are executed under recover and the outcome (panic / error / nil) is only counted",
+			"out-of-range indices come in every magnitude (len, len+1.., around 2^16 and 2^31, 2^32+valid, 2^32+len, 2^40+valid, MaxInt64); the statement's 'beyond the child list => error' is the only thing asserted for them",
+			"children are built with every field populated: fields the model does not control (found by reflection, today Member.Nodes) get position-derived values and must survive an apply unchanged",
 			"when an in-time update is out of range only the error (errors.As *osm.UpdateIndexOutOfRangeError, carrying an out-of-range index of the list), absence of a panic and 'no unnamed child changed' are asserted; whether in-range updates before it were applied and what Updates then holds is not",
 			"an out-of-range index carried only by an update later than t is not this call's business: the in-time updates must be applied, nil returned and the bad update stay pending; it must be reported by the call whose t reaches it (also as the second step of a two-step application)",
 			"shared update lists are ordinary inputs: every application runs on a struct copy (children cloned, Updates backing array shared with the original and with sibling copies), as a caller makes 'a copy' of an element; the original's update list and children must read exactly as before and LineStringAt on the original must still answer correctly. ApplyUpdatesUpTo may re-point the Updates field of its receiver but must not write into the list's elements",
@@ -1397,6 +1584,11 @@ func init() {
 				}
 				for sh := 0; sh < shards; sh++ {
 					cs = append(cs, fw.Case{Kind: "enum", P: map[string]int64{"n": int64(n), "maxm": int64(maxm), "maxpair": 1000, "shard": int64(sh), "shards": int64(shards)}})
+				}
+			}
+			if math.MaxInt > 1<<32 { // out-of-range option = 2^32 + a valid index
+				for n := 1; n <= 2; n++ {
+					cs = append(cs, fw.Case{Kind: "enum", P: map[string]int64{"n": int64(n), "maxm": int64(maxm - 1), "maxpair": 1000, "shard": 0, "shards": 1, "oor": 1<<32 + int64(n-1)}})
 				}
 			}
 			for i := 0; i < ncases; i++ {
